@@ -312,6 +312,10 @@ def formula_atoms(f, out):
             formula_atoms(x, out)
 
 
+def eq_const_static(node):
+    return isinstance(node, ast.Compare) and len(node.ops) == 1 and isinstance(node.ops[0], ast.Eq) and isinstance(node.comparators[0], ast.Constant)
+
+
 def canonical_decision(st, block_fn):
     """rebuild an if / elif / nested-if decision structure over simple side-effect-free tests as a Shannon expansion on the
     sorted atoms, merging equal leaves: nested and chained spellings of the same decision table get the same tree"""
@@ -337,7 +341,9 @@ def canonical_decision(st, block_fn):
             collect(t[2])
             collect(t[3])
     collect(tree)
-    if len(atoms) > 6:
+    if len(atoms) > 6 and not all(eq_const_static(v) for v in atoms.values()):
+        return None
+    if len(atoms) > 26:
         return None
     order = sorted(atoms)
 
@@ -349,7 +355,20 @@ def canonical_decision(st, block_fn):
             t = t[2] if v else t[3]
         return t[1]
 
+    def eq_const(node):
+        if isinstance(node, ast.Compare) and len(node.ops) == 1 and isinstance(node.ops[0], ast.Eq) and isinstance(node.comparators[0], ast.Constant):
+            return dump(node.left), repr(node.comparators[0].value)
+        return None
+    eqs = {k: eq_const(v) for k, v in atoms.items()}
+
     def expand(assign, remaining):
+        # E == k1 true makes E == k2 false for every other constant k2
+        for a, val in list(assign.items()):
+            if val and eqs.get(a):
+                for b, eb in eqs.items():
+                    if b != a and eb and eb[0] == eqs[a][0] and eb[1] != eqs[a][1] and b not in assign:
+                        assign[b] = False
+        remaining = [r for r in remaining if r not in assign]
         lf = leaf_for(tree, assign)
         if lf is not None:
             return copy.deepcopy(lf)
@@ -410,7 +429,26 @@ class Normalizer:
             ast.fix_missing_locations(fn)
             if dump(fn) == before:
                 break
+        fn.body = self.under_facts(fn.body, {})
         fn.body = self.decide(fn.body)
+        fn.body = self.under_facts(fn.body, {})
+        self.late = True
+        for _ in range(3):
+            before = dump(fn)
+            fn.body = self.block(fn.body)
+            fn.body = self.hoist_pass(fn.body)
+            fn.body = self.strip_tail(fn.body, ast.Return) or [ast.Pass()]
+            try:
+                self.split_webs(fn)
+            except Exception:
+                pass
+            self.forward_substitute(fn)
+            self.merge_adjacent(fn)
+            self.dead_stores(fn)
+            fn = ExprCanon(self, arith=False).visit(fn)
+            ast.fix_missing_locations(fn)
+            if dump(fn) == before:
+                break
         self.fn = fn
         return fn
 
@@ -473,6 +511,89 @@ class Normalizer:
                 if isinstance(x, ast.Call) and not state_preserving_call(x) and dotted(x.func) not in ('self._rebuild', 'self.get_size', 'self._get_lam_F'):
                     dirty.add('CALL')
         fn.body = keep
+
+    def under_facts(self, stmts, facts):
+        """inside `if E == k:` (E pure, not re-bound in the branch) a test `E == k2` is decided"""
+        out = []
+        for st in stmts:
+            if isinstance(st, ast.If):
+                t = self.decide_test(st.test, facts)
+                ok, val = inline._Fold._const(t)
+                if ok:
+                    out += self.under_facts(st.body if val else st.orelse, facts)
+                    continue
+                st.test = t
+                f2 = dict(facts)
+                f3 = dict(facts)
+                if eq_const_static(t) and is_pure(t.left):
+                    f2[dump(t.left)] = ('eq', repr(t.comparators[0].value), t.left)
+                    prev = f3.get(dump(t.left))
+                    ne = set(prev[1]) if prev and prev[0] == 'ne' else set()
+                    if not prev or prev[0] == 'ne':
+                        f3[dump(t.left)] = ('ne', frozenset(ne | {repr(t.comparators[0].value)}), t.left)
+                st.body = self.under_facts(st.body, self.kill_facts(st.body, f2)) or [ast.Pass()]
+                st.orelse = self.under_facts(st.orelse, self.kill_facts(st.orelse, f3))
+                out.append(st)
+            else:
+                for f in ('body', 'orelse', 'finalbody'):
+                    b = getattr(st, f, None)
+                    if isinstance(b, list) and b and isinstance(b[0], ast.stmt) and not isinstance(st, (ast.FunctionDef, ast.ClassDef)):
+                        setattr(st, f, self.under_facts(b, {}))
+                out.append(st)
+            # a statement that re-binds what a fact talks about ends the fact
+            facts = self.kill_facts([st], facts)
+        return out
+
+    def kill_facts(self, stmts, facts):
+        if not facts:
+            return facts
+        stored = set()
+        impure = False
+        for s2 in stmts:
+            for x in ast.walk(s2):
+                if isinstance(getattr(x, 'ctx', None), (ast.Store, ast.Del)):
+                    d = dotted(x) if isinstance(x, (ast.Name, ast.Attribute)) else dotted(x.value) if isinstance(x, ast.Subscript) else None
+                    stored.add(d or '?')
+                if isinstance(x, ast.Call) and not (is_pure(x) or state_preserving_call(x)):
+                    impure = True
+        out = {}
+        for k, v in facts.items():
+            nm, at = reads(v[2])
+            if '?' in stored or (nm | at) & stored:
+                continue
+            if at and impure:
+                continue
+            out[k] = v
+        return out
+
+    def decide_test(self, t, facts):
+        if isinstance(t, ast.BoolOp):
+            vals = [self.decide_test(v, facts) for v in t.values]
+            keep = []
+            for v in vals:
+                ok, val = inline._Fold._const(v)
+                if ok:
+                    if isinstance(t.op, ast.And) and not val:
+                        return ast.Constant(value=False)
+                    if isinstance(t.op, ast.Or) and val:
+                        return ast.Constant(value=True)
+                    continue
+                keep.append(v)
+            if not keep:
+                return ast.Constant(value=isinstance(t.op, ast.And))
+            return keep[0] if len(keep) == 1 else ast.BoolOp(op=t.op, values=keep)
+        if isinstance(t, ast.Compare) and len(t.ops) == 1 and isinstance(t.ops[0], (ast.Eq, ast.NotEq)) and isinstance(t.comparators[0], ast.Constant):
+            f = facts.get(dump(t.left))
+            if f:
+                k = repr(t.comparators[0].value)
+                res = None
+                if f[0] == 'eq':
+                    res = (f[1] == k)
+                elif f[0] == 'ne' and k in f[1]:
+                    res = False
+                if res is not None:
+                    return ast.Constant(value=res if isinstance(t.ops[0], ast.Eq) else not res)
+        return t
 
     def decide(self, stmts):
         """final pass: decision structures in canonical (Shannon) form"""
@@ -542,6 +663,10 @@ class Normalizer:
             rest = stmts[i + 1:]
             if isinstance(st, ast.If):
                 st.test = canon_test(st.test)
+                exp = self.expand_table_dispatch(st)
+                if exp is not None:
+                    stmts = stmts[:i] + exp + rest
+                    continue
                 body, orelse = st.body, st.orelse
                 # a lone `return <simple>` after an if is copied into its branches (then `x = E; return x` can become `return E`)
                 if len(rest) == 1 and isinstance(rest[0], ast.Return) and not always_exits(body) and not always_exits(orelse) and cost(rest[0]) <= 16:
@@ -581,13 +706,25 @@ class Normalizer:
                     out += self.split_assign(ast.Assign(targets=[body[0].targets[0]], value=ife))
                 else:
                     st.body, st.orelse = body, orelse
-                    out.append(st)
+                    tail = []
+                    if tail:
+                        st.body = self.block(st.body)
+                        st.orelse = self.block(st.orelse)
+                        if not st.body and st.orelse:
+                            st.test, st.body, st.orelse = canon_test(negate(st.test)), st.orelse, []
+                        if st.body or st.orelse:
+                            out.append(st)
+                        out += self.block(tail)
+                    else:
+                        out.append(st)
                 stmts = stmts[:i + 1] + rest
                 i += 1
                 continue
             if isinstance(st, (ast.For, ast.While)):
                 if isinstance(st, ast.While):
                     st.test = canon_test(st.test)
+                st.body = self.block(st.body) or [ast.Pass()]
+                st.body = self.strip_tail(st.body, ast.Continue) or [ast.Pass()]
                 st.body = self.block(st.body) or [ast.Pass()]
                 st.orelse = self.block(st.orelse)
                 if isinstance(st, ast.For):
@@ -630,6 +767,101 @@ class Normalizer:
                 out.append(st)
             i += 1
         return out
+
+    def expand_table_dispatch(self, st):
+        """if E in {k1: v1, k2: v2, ...}: BODY(table[E]) else: ELSE   ->   if E == k1: BODY(v1) elif E == k2: BODY(v2) ... else: ELSE
+        (E pure, literal table with constant keys, at most 24 entries)"""
+        t = st.test
+        if not (isinstance(t, ast.Compare) and len(t.ops) == 1 and isinstance(t.ops[0], (ast.In, ast.NotIn)) and isinstance(t.comparators[0], ast.Dict)):
+            return None
+        table = t.comparators[0]
+        if not table.keys or len(table.keys) > 24 or not all(isinstance(k, ast.Constant) for k in table.keys) or not is_pure(t.left):
+            return None
+        body, orelse = (st.body, st.orelse) if isinstance(t.ops[0], ast.In) else (st.orelse, st.body)
+        key = dump(t.left)
+        tdump = dump(table)
+
+        def inst(stmts, v):
+            class RT(ast.NodeTransformer):
+                def visit_Subscript(self, n):
+                    self.generic_visit(n)
+                    if isinstance(n.ctx, ast.Load) and dump(n.value) == tdump and dump(n.slice) == key:
+                        return copy.deepcopy(v)
+                    return n
+            return [RT().visit(copy.deepcopy(x)) for x in stmts]
+        chain = list(orelse)
+        for k, v in reversed(list(zip(table.keys, table.values))):
+            chain = [ast.If(test=ast.Compare(left=copy.deepcopy(t.left), ops=[ast.Eq()], comparators=[copy.deepcopy(k)]), body=inst(body, v) or [ast.Pass()], orelse=chain)]
+        return chain
+
+    def hoist_common_suffix(self, st):
+        """an if / elif tree all of whose branches that fall through end with the same statements: those statements follow the tree
+        (the inverse of copying the code after a guard into the branch that falls through)"""
+        leaves = []
+
+        def collect(node):
+            for br in (node.body, node.orelse):
+                if len(br) == 1 and isinstance(br[0], ast.If) and br[0].orelse:
+                    collect(br[0])
+                else:
+                    leaves.append(br)
+        collect(st)
+        live = [lf for lf in leaves if not always_exits(lf)]
+        if len(live) < 2 or any(not lf for lf in live):
+            return []
+        n = 0
+        while all(len(lf) > n for lf in live) and len({dump(lf[-1 - n]) for lf in live}) == 1:
+            n += 1
+        if n == 0:
+            return []
+        tail = copy.deepcopy(live[0][-n:])
+        for lf in live:
+            del lf[-n:]
+            if not lf:
+                lf.append(ast.Pass())
+        return tail
+
+    def hoist_pass(self, stmts):
+        """top-down: common suffixes are taken out of whole decision trees, then the leaves are visited"""
+        out = []
+        for st in stmts:
+            if isinstance(st, ast.If) and st.orelse:
+                tail = self.hoist_common_suffix(st)
+                self.hoist_leaves(st)
+                out.append(st)
+                out += self.hoist_pass(tail)
+                continue
+            for f in ('body', 'orelse', 'finalbody'):
+                b = getattr(st, f, None)
+                if isinstance(b, list) and b and isinstance(b[0], ast.stmt) and not isinstance(st, (ast.FunctionDef, ast.ClassDef)):
+                    setattr(st, f, self.hoist_pass(b))
+            if isinstance(st, ast.Try):
+                for h in st.handlers:
+                    h.body = self.hoist_pass(h.body)
+            out.append(st)
+        return out
+
+    def hoist_leaves(self, node):
+        for attr in ('body', 'orelse'):
+            br = getattr(node, attr)
+            if len(br) == 1 and isinstance(br[0], ast.If) and br[0].orelse:
+                self.hoist_leaves(br[0])
+            else:
+                setattr(node, attr, self.hoist_pass(br))
+
+    def strip_tail(self, stmts, kind):
+        """`continue` as the last action of a loop body (or `return None` as the last action of a function) is a no-op"""
+        stmts = list(stmts)
+        while stmts:
+            last = stmts[-1]
+            if isinstance(last, kind) and (kind is ast.Continue or last.value is None or (isinstance(last.value, ast.Constant) and last.value.value is None)):
+                stmts.pop()
+                continue
+            if isinstance(last, ast.If):
+                last.body = self.strip_tail(last.body, kind) or [ast.Pass()]
+                last.orelse = self.strip_tail(last.orelse, kind)
+            break
+        return stmts
 
     def polish(self, stmts):
         res = []
@@ -707,8 +939,16 @@ class Normalizer:
 
     def unroll(self, st):
         """for T in (e1, e2, ...): BODY  over a literal of at most four elements, BODY without break / continue / re-binding of T"""
-        if not isinstance(st.iter, (ast.Tuple, ast.List)) or not (1 <= len(st.iter.elts) <= 4) or st.orelse:
+        it = st.iter
+        if isinstance(it, ast.Call) and dotted(it.func) == 'enumerate' and len(it.args) == 1 and not it.keywords and isinstance(it.args[0], (ast.Tuple, ast.List)):
+            it = ast.Tuple(elts=[ast.Tuple(elts=[ast.Constant(value=k), e], ctx=ast.Load()) for k, e in enumerate(it.args[0].elts)], ctx=ast.Load())
+        elif isinstance(it, ast.Call) and dotted(it.func) == 'range' and not it.keywords and 1 <= len(it.args) <= 2 \
+                and all(isinstance(a, ast.Constant) and isinstance(a.value, int) for a in it.args):
+            lo, hi = (0, it.args[0].value) if len(it.args) == 1 else (it.args[0].value, it.args[1].value)
+            it = ast.Tuple(elts=[ast.Constant(value=k) for k in range(lo, hi)], ctx=ast.Load())
+        if not isinstance(it, (ast.Tuple, ast.List)) or not (1 <= len(it.elts) <= 8) or st.orelse:
             return None
+        st = ast.For(target=st.target, iter=it, body=st.body, orelse=[])
         if any(isinstance(n, (ast.Break, ast.Continue)) for b in st.body for n in ast.walk(b)):
             return None
         tnames = [x.id for x in ast.walk(st.target) if isinstance(x, ast.Name)]
@@ -732,6 +972,15 @@ class Normalizer:
         return out
 
     def loop_idiom(self, st):
+        # for t in S: a, b, c = t  (t not used otherwise)  ->  for a, b, c in S
+        if isinstance(st.target, ast.Name) and st.body and isinstance(st.body[0], ast.Assign) and len(st.body[0].targets) == 1 \
+                and isinstance(st.body[0].targets[0], (ast.Tuple, ast.List)) and isinstance(st.body[0].value, ast.Name) and st.body[0].value.id == st.target.id \
+                and all(isinstance(e, ast.Name) for e in st.body[0].targets[0].elts):
+            t = st.target.id
+            other = [n for b in st.body[1:] + st.orelse for n in ast.walk(b) if isinstance(n, ast.Name) and n.id == t]
+            if not other and not self.read_anywhere_else(t, st):
+                st.target = ast.Tuple(elts=st.body[0].targets[0].elts, ctx=ast.Store())
+                st.body = st.body[1:] or [ast.Pass()]
         # for i, x in enumerate(S) with i never read  ->  for x in S
         if isinstance(st.iter, ast.Call) and dotted(st.iter.func) == 'enumerate' and len(st.iter.args) == 1 and not st.iter.keywords \
                 and isinstance(st.target, ast.Tuple) and len(st.target.elts) == 2 and isinstance(st.target.elts[0], ast.Name):
@@ -816,8 +1065,10 @@ class Normalizer:
                     v = st.targets[0].id
                     if len(asg.get(v, [])) != 1 or v in self.params:
                         continue
-                    if not is_pure(st.value) or isinstance(st.value, (ast.ListComp, ast.DictComp, ast.SetComp, ast.GeneratorExp, ast.List, ast.Dict, ast.Set)):
+                    if not is_pure(st.value) or isinstance(st.value, (ast.ListComp, ast.DictComp, ast.SetComp, ast.GeneratorExp, ast.List, ast.Set)):
                         continue        # containers have identity: not substituted
+                    if isinstance(st.value, ast.Dict) and self.container_mutated_or_escapes(fn, v):
+                        continue
                     if any(isinstance(n, (ast.Lambda, ast.FunctionDef)) and n is not fn for n in ast.walk(fn)):
                         continue        # closures capture late
                     D = cfg.node_of_stmt(st)
@@ -826,7 +1077,7 @@ class Normalizer:
                     uses = [n for n in free_names(fn) if n.id == v and isinstance(n.ctx, ast.Load)]
                     if not uses or any(id(u) not in node_of for u in uses):
                         continue
-                    if len(uses) > 1 and not isinstance(st.value, (ast.Name, ast.Constant, ast.Attribute)) and cost(st.value) > 60:
+                    if len(uses) > 1 and not isinstance(st.value, (ast.Name, ast.Constant, ast.Attribute, ast.Dict)) and cost(st.value) > 60:
                         continue
                     names, attrs = reads(st.value)
                     names.discard(v)
@@ -894,12 +1145,30 @@ class Normalizer:
             if not done:
                 break
 
+    def container_mutated_or_escapes(self, fn, v):
+        """a local dict literal that is only ever indexed / iterated / tested for membership is a constant table"""
+        for n in ast.walk(fn):
+            if isinstance(n, (ast.Subscript, ast.Attribute)) and isinstance(n.ctx, (ast.Store, ast.Del)) and isinstance(n.value, ast.Name) and n.value.id == v:
+                return True
+            if isinstance(n, ast.Call):
+                if isinstance(n.func, ast.Attribute) and isinstance(n.func.value, ast.Name) and n.func.value.id == v and n.func.attr not in ('keys', 'values', 'items', 'get'):
+                    return True
+                if any(isinstance(a, ast.Name) and a.id == v for a in list(n.args) + [k.value for k in n.keywords]) and dotted(n.func) not in ('len', 'sorted', 'list', 'tuple'):
+                    return True
+            if isinstance(n, (ast.Return, ast.Yield)) and n.value is not None and any(isinstance(x, ast.Name) and x.id == v for x in ast.walk(n.value)):
+                return True
+            if isinstance(n, ast.Assign) and isinstance(n.value, ast.Name) and n.value.id == v:
+                return True
+        return False
+
     def fresh_local(self, v, asg):
         """every binding of the local name v is a newly created array / matrix"""
         lst = asg.get(v, [])
         if not lst or v in self.params:
             return False
         for st, kind in lst:
+            if kind == 'assign' and isinstance(st, ast.Assign) and isinstance(st.value, (ast.Dict, ast.List)):
+                continue
             if not (kind == 'assign' and isinstance(st, ast.Assign) and isinstance(st.value, ast.Call)):
                 return False
             d = dotted(st.value.func) or ''
@@ -925,6 +1194,8 @@ class Normalizer:
         order = []
 
         def rec(node):
+            if isinstance(node, (ast.expr_context, ast.operator, ast.unaryop, ast.boolop, ast.cmpop)):
+                return          # shared singleton nodes have no position
             order.append(node)
             for c in ast.iter_child_nodes(node):
                 if isinstance(c, (ast.ListComp, ast.SetComp, ast.DictComp, ast.GeneratorExp)):
@@ -1406,6 +1677,10 @@ class ExprCanon(ast.NodeTransformer):
         return n
 
     def visit_BinOp(self, n):
+        if isinstance(n.op, ast.Add):
+            l, r = self.visit(copy.deepcopy(n.left)), self.visit(copy.deepcopy(n.right))
+            if isinstance(l, ast.Constant) and isinstance(r, ast.Constant) and isinstance(l.value, str) and isinstance(r.value, str):
+                return ast.Constant(value=l.value + r.value)
         if self.do_arith and self.scalarish(n):
             c = self.arith(n)
             if c is not None:
@@ -1445,8 +1720,21 @@ class ExprCanon(ast.NodeTransformer):
         self.generic_visit(n)
         return canon_test(n)
 
+    def visit_Name(self, n):
+        # module-level literal tables (a dict / tuple of constants bound once at module level, not re-bound here)
+        if isinstance(n.ctx, ast.Load):
+            mc = self.nz.sigdb.get(('modconst', n.id))
+            if mc is not None and n.id not in self.nz.assignments(self.nz.fn):
+                return copy.deepcopy(mc)
+        return n
+
     def visit_Compare(self, n):
         self.generic_visit(n)
+        # constant comparisons
+        if len(n.ops) == 1 and isinstance(n.left, ast.Constant) and isinstance(n.comparators[0], ast.Constant) and isinstance(n.ops[0], (ast.Eq, ast.NotEq)) \
+                and type(n.left.value) is type(n.comparators[0].value):
+            v = n.left.value == n.comparators[0].value
+            return ast.Constant(value=v if isinstance(n.ops[0], ast.Eq) else not v)
         # x in d.keys() -> x in d
         if len(n.ops) == 1 and isinstance(n.ops[0], (ast.In, ast.NotIn)):
             c = n.comparators[0]
@@ -1468,6 +1756,13 @@ class ExprCanon(ast.NodeTransformer):
 
     def visit_Subscript(self, n):
         self.generic_visit(n)
+        if isinstance(n.ctx, ast.Load) and isinstance(n.value, ast.Dict) and isinstance(n.slice, ast.Constant) and all(isinstance(k, ast.Constant) for k in n.value.keys):
+            for k, v in zip(n.value.keys, n.value.values):
+                if type(k.value) is type(n.slice.value) and k.value == n.slice.value:
+                    return v
+        if isinstance(n.ctx, ast.Load) and isinstance(n.value, (ast.Tuple, ast.List)) and isinstance(n.slice, ast.Constant) and isinstance(n.slice.value, int) \
+                and 0 <= n.slice.value < len(n.value.elts) and not any(isinstance(e, ast.Starred) for e in n.value.elts):
+            return n.value.elts[n.slice.value]
         if isinstance(n.ctx, ast.Load):
             if isinstance(n.slice, ast.IfExp) and is_pure(n):
                 e = n.slice
@@ -1482,6 +1777,34 @@ class ExprCanon(ast.NodeTransformer):
     def visit_Call(self, n):
         self.generic_visit(n)
         d = dotted(n.func)
+        # dict(a=x, b=y) -> {'a': x, 'b': y}
+        if d == 'dict' and not n.args and n.keywords and all(k.arg for k in n.keywords):
+            return ast.Dict(keys=[ast.Constant(value=k.arg) for k in n.keywords], values=[k.value for k in n.keywords])
+        # <dict literal>.keys() / .values() / .items()
+        if isinstance(n.func, ast.Attribute) and isinstance(n.func.value, ast.Dict) and not n.args and not n.keywords and all(k is not None for k in n.func.value.keys):
+            dd = n.func.value
+            if n.func.attr == 'keys':
+                return ast.Tuple(elts=list(dd.keys), ctx=ast.Load())
+            if n.func.attr == 'values':
+                return ast.Tuple(elts=list(dd.values), ctx=ast.Load())
+            if n.func.attr == 'items':
+                return ast.Tuple(elts=[ast.Tuple(elts=[k, v], ctx=ast.Load()) for k, v in zip(dd.keys, dd.values)], ctx=ast.Load())
+        # string methods on constants
+        if isinstance(n.func, ast.Attribute) and isinstance(n.func.value, ast.Constant) and isinstance(n.func.value.value, str) and not n.keywords \
+                and all(isinstance(a, ast.Constant) for a in n.args):
+            sv, args = n.func.value.value, [a.value for a in n.args]
+            try:
+                if n.func.attr in ('lower', 'upper', 'strip') and not args:
+                    return ast.Constant(value=getattr(sv, n.func.attr)())
+                if n.func.attr == 'split' and len(args) <= 1:
+                    return ast.List(elts=[ast.Constant(value=x) for x in sv.split(*args)], ctx=ast.Load())
+                if n.func.attr in ('startswith', 'endswith') and len(args) == 1 and isinstance(args[0], str):
+                    return ast.Constant(value=getattr(sv, n.func.attr)(args[0]))
+            except Exception:
+                pass
+        # len(<literal sequence>) -> constant
+        if d == 'len' and len(n.args) == 1 and isinstance(n.args[0], (ast.Tuple, ast.List)) and not any(isinstance(e, ast.Starred) for e in n.args[0].elts):
+            return ast.Constant(value=len(n.args[0].elts))
         # getattr(obj, 'name') -> obj.name
         if d == 'getattr' and len(n.args) == 2 and not n.keywords and isinstance(n.args[1], ast.Constant) and isinstance(n.args[1].value, str) and n.args[1].value.isidentifier():
             return ast.Attribute(value=n.args[0], attr=n.args[1].value, ctx=ast.Load())
@@ -1735,7 +2058,11 @@ def build_sigdb(mod_funcs, class_methods, cls, extra=None):
 
 
 def normal_form(fn, expander, cls, sigdb):
-    f = expander.expand(fn, cls=cls)
+    expander.inline_all_nested = True       # for the proof, nested closures of the confirmed version are inlined as well
+    try:
+        f = expander.expand(fn, cls=cls)
+    finally:
+        expander.inline_all_nested = False
     params = [a.arg for a in f.args.posonlyargs + f.args.args + f.args.kwonlyargs] + ([f.args.vararg.arg] if f.args.vararg else []) + ([f.args.kwarg.arg] if f.args.kwarg else [])
     nz = Normalizer(f, sigdb)
     f = nz.run()
